@@ -3,6 +3,7 @@ package dst
 import (
 	"fmt"
 	"sort"
+	"strings"
 
 	"github.com/vx-labs/mqtt-protocol/packet"
 	"pgregory.net/rapid"
@@ -26,8 +27,10 @@ type Op struct {
 
 // Pools of names; everything lives in mount point "mp" (the broker always prefixes).
 var (
-	Filters = []string{"mp/a", "mp/a/b", "mp/+", "mp/#", "mp/a/+", "mp/b", "mp/a/#", "mp/+/b", "mp/mp/a"}
-	Topics  = []string{"mp/a", "mp/a/b", "mp/b", "mp/a/b/c", "mp/a/c"}
+	// the last filter and the last topic are as long as MQTT allows (65535 bytes on the wire); with
+	// the mount-point prefix in front the stored form is longer than that
+	Filters = []string{"mp/a", "mp/a/b", "mp/+", "mp/#", "mp/a/+", "mp/b", "mp/a/#", "mp/+/b", "mp/mp/a", "mp/long/" + strings.Repeat("f", 65530)}
+	Topics  = []string{"mp/a", "mp/a/b", "mp/b", "mp/a/b/c", "mp/a/c", "mp/long/" + strings.Repeat("t", 65530)}
 )
 
 // SessID: session ids are opaque strings chosen by the authentication back end. Indices 90
@@ -59,6 +62,7 @@ func will(op Op) *packet.Publish {
 // Apply performs op on n through the public mutators; errors are returned for the caller
 // to judge (Create of a listed session is refused by design).
 func Apply(n *Node, op Op) error {
+	n.Look()
 	switch op.Op {
 	case "sess.create":
 		cid := ClientID(op.Sess)
@@ -200,6 +204,9 @@ func GenOp(t *rapid.T, nSess, nFilters, nTopics int, peers []uint64, bulk bool) 
 	case 1:
 		return Op{Op: "sess.delete", Sess: rapid.IntRange(0, nSess-1).Draw(t, "sess")}
 	case 2, 3, 4:
+		if rapid.IntRange(0, 15).Draw(t, "maxLength") == 0 {
+			return Op{Op: rapid.SampledFrom([]string{"sub.create", "sub.create", "sub.delete", "top.set", "top.set", "top.delete"}).Draw(t, "longOp"), Sess: rapid.IntRange(0, nSess-1).Draw(t, "sess"), Filter: len(Filters) - 1, Topic: len(Topics) - 1, Payload: "x", QoS: 1}
+		}
 		if rapid.IntRange(0, 7).Draw(t, "aliasing") == 0 {
 			return Op{Op: rapid.SampledFrom([]string{"sub.create", "sub.create", "sub.delete"}).Draw(t, "aliasOp"), Sess: rapid.SampledFrom([]int{90, 91}).Draw(t, "aliasSess"), Filter: rapid.SampledFrom([]int{8, 0}).Draw(t, "aliasFilter"), QoS: int32(rapid.IntRange(0, 2).Draw(t, "qos"))}
 		}
